@@ -709,7 +709,7 @@ func parentMain(c *Ctx) int {
 	if w > len(us) {
 		w = len(us)
 	}
-	hangLimit := 150 * time.Second
+	hangLimit := 300 * time.Second
 	if v := os.Getenv("VERIF_HANG_S"); v != "" {
 		n, _ := strconv.Atoi(v)
 		hangLimit = time.Duration(n) * time.Second
